@@ -1,7 +1,7 @@
 (* Props/C18.v -- property C18, stated about the definitions GENERATED from pulsarbat/utils.py.
    Only statements, [exact] and Print Assumptions live here. *)
 From Coq Require Import ZArith Znumtheory.
-From PB Require Import Gen.GenUtils Model.FastLen Proofs.FastLenB Proofs.FastLenPrev Proofs.FastLenTop.
+From PB Require Import Gen.GenUtils Model.FastLen Proofs.FastLenB Proofs.FastLenPrev Proofs.FastLenTop Model.Ledger Gen.GenFastLenCrop Proofs.LedgerGen.
 Open Scope Z_scope.
 
 (* smooth7 m := 0 < m /\ forall p, prime p -> (p | m) -> p <= 7 *)
@@ -22,7 +22,17 @@ Theorem C18_fast_len : forall len, 0 <= len ->
   exists k, fast_len_keep len = Some k /\ 0 <= k <= len /\ (1 <= len -> 1 <= k).
 Proof. exact fast_len_prefix. Qed.
 
+(* tie to the source by translation (T6): fast_len is a plain time slice of the signal itself with the bounds GENERATED from
+   transforms.fast_len on this run - z[ : prev_fast_len(len z)] - so the ledger theorems of C01 (retained samples, their timestamps, the
+   half-open extent) apply to it, whatever array backs the signal *)
+Theorem C18_generated_crop : forall l : ledger,
+  step l OFastLen = match gen_fast_len_lo (len l), gen_fast_len_hi (len l) with
+                    | Some lo, Some hi => time_slice l lo hi None
+                    | _, _ => Err 9 end.
+Proof. exact fast_len_generated. Qed.
+
 Print Assumptions C18_next.
 Print Assumptions C18_prev.
 Print Assumptions C18_smooth_forms.
 Print Assumptions C18_fast_len.
+Print Assumptions C18_generated_crop.
